@@ -12,6 +12,7 @@ import (
 	"flag"
 	"fmt"
 	"io"
+	"net/http"
 	"net/http/httptest"
 	"net/url"
 	"os"
@@ -35,12 +36,12 @@ func init() {
 
 // ------------------------------------------------------------------ translator
 
-func coqStr(s string) string { return Render(S(s))[3:] }
+func c09CoqStr(s string) string { return Render(S(s))[3:] }
 
-func coqStrList(l []string) string {
+func c09CoqStrList(l []string) string {
 	var q []string
 	for _, s := range l {
-		q = append(q, coqStr(s))
+		q = append(q, c09CoqStr(s))
 	}
 	return "[" + strings.Join(q, "; ") + "]"
 }
@@ -95,7 +96,7 @@ func genC09Tables(args []string) {
 			kind = "KUnsupported"
 		}
 		fmt.Fprintf(&sb, "  {| cf_name := %s; cf_url := %s; cf_kind := %s; cf_choices := %s; cf_default := %s |}",
-			coqStr(f.Name), coqStr(f.URLParam), kind, coqStrList(f.Choices), "("+Render(c09FieldVal(f))+")")
+			c09CoqStr(f.Name), c09CoqStr(f.URLParam), kind, c09CoqStrList(f.Choices), "("+Render(c09FieldVal(f))+")")
 	}
 	sb.WriteString("].\n\nDefinition commands : list (string * bool) := [\n")
 	names, hp := driver.VerifC09Commands()
@@ -103,9 +104,9 @@ func genC09Tables(args []string) {
 		if i > 0 {
 			sb.WriteString(";\n")
 		}
-		fmt.Fprintf(&sb, "  (%s, %v)", coqStr(n), hp[i])
+		fmt.Fprintf(&sb, "  (%s, %v)", c09CoqStr(n), hp[i])
 	}
-	sb.WriteString("].\n\nDefinition help_keys : list string :=\n  " + coqStrList(driver.VerifC09HelpKeys()) + ".\n")
+	sb.WriteString("].\n\nDefinition help_keys : list string :=\n  " + c09CoqStrList(driver.VerifC09HelpKeys()) + ".\n")
 	if len(args) > 0 {
 		os.WriteFile(args[0], []byte(sb.String()), 0o644)
 	} else {
@@ -204,6 +205,13 @@ type c09Sym struct{}
 
 func (c09Sym) Symbolize(string, plugin.MappingSources, *profile.Profile) error { return nil }
 
+// c09NoNet is an http.RoundTripper that refuses every request.
+type c09NoNet struct{}
+
+func (c09NoNet) RoundTrip(*http.Request) (*http.Response, error) {
+	return nil, fmt.Errorf("no network here")
+}
+
 type c09Obj struct{ opened []string }
 
 func (o *c09Obj) Open(file string, _, _, _ uint64, _ string) (plugin.ObjFile, error) {
@@ -226,8 +234,8 @@ func (w *c09Writer) Open(name string) (io.WriteCloser, error) {
 	return &c09WC{}, nil
 }
 
-// guarded runs f under recover and a deadline.
-func guarded(d time.Duration, f func() string) Term {
+// c09Guarded runs f under recover and a deadline.
+func c09Guarded(d time.Duration, f func() string) Term {
 	ch := make(chan Term, 1)
 	go func() {
 		defer func() {
@@ -245,11 +253,34 @@ func guarded(d time.Duration, f func() string) Term {
 			buf := make([]byte, 1<<20)
 			fmt.Fprintf(os.Stderr, "HANG\n%s\n", buf[:runtime.Stack(buf, true)])
 		}
+		c09Poisoned = true
 		return L(S("hang"))
 	}
 }
 
-func errClass(err error) string {
+// c09Poisoned is set once a guarded call did not return: the goroutine left behind may hold a lock
+// of the driver package (or spin), so nothing more can be run in this process.  The stream that
+// observed it emits its case and stops (c09Stop).
+var c09Poisoned bool
+
+// c09Reset puts the driver's package state back, under the watchdog (a leaked lock would block it).
+func c09Reset() bool {
+	if c09Poisoned {
+		return false
+	}
+	r := c09Guarded(5*time.Second, func() string { driver.VerifC09Reset(); return "ok" })
+	_, ok := r.(tS)
+	return ok
+}
+
+// c09Current dumps the current configuration under the watchdog.
+func c09Current() Term {
+	var d Term = L(S("hang"))
+	c09Guarded(5*time.Second, func() string { d = c09Dump(driver.VerifC09Current()); return "ok" })
+	return d
+}
+
+func c09ErrClass(err error) string {
 	if err == nil {
 		return "ok"
 	}
@@ -430,7 +461,7 @@ func c09Profile(r *Rng, allowNoTypes bool) *profile.Profile {
 	}
 	for _, l := range p.Location {
 		if r.P(1, 10) {
-			l.Address = PickU(r, []uint64{0, 1, 1<<64 - 1, 1 << 63, 1<<63 - 1})
+			l.Address = c09PickU(r, []uint64{0, 1, 1<<64 - 1, 1 << 63, 1<<63 - 1})
 		}
 		for i := range l.Line {
 			if r.P(1, 10) {
@@ -471,7 +502,7 @@ func c09FixUnits(p *profile.Profile) {
 	}
 }
 
-func PickU(r *Rng, l []uint64) uint64 { return l[r.Intn(len(l))] }
+func c09PickU(r *Rng, l []uint64) uint64 { return l[r.Intn(len(l))] }
 
 func c09Bytes(p *profile.Profile) []byte {
 	var buf bytes.Buffer
@@ -503,8 +534,8 @@ func c09STypes(p *profile.Profile) []string {
 	return s
 }
 
-// pfTable is the ParseFloat answer table of a case: every candidate value string -> (ok, value).
-func pfTable(vals []string) Term {
+// c09PFTable is the ParseFloat answer table of a case: every candidate value string -> (ok, value).
+func c09PFTable(vals []string) Term {
 	seen := map[string]bool{}
 	var l []Term
 	sort.Strings(vals)
@@ -522,7 +553,7 @@ func pfTable(vals []string) Term {
 }
 
 // candidate right-hand sides of an interactive line (every suffix after an '=')
-func lineValues(line string) []string {
+func c09LineValues(line string) []string {
 	var out []string
 	for _, in := range []string{line, strings.TrimSpace(line)} {
 		if i := strings.Index(in, "="); i >= 0 {
@@ -536,7 +567,7 @@ func lineValues(line string) []string {
 	return out
 }
 
-func hasHighByte(s string) bool {
+func c09HasHighByte(s string) bool {
 	for i := 0; i < len(s); i++ {
 		if s[i] >= 0x80 {
 			return true
@@ -548,13 +579,13 @@ func hasHighByte(s string) bool {
 // ------------------------------------------------------------------ operations
 
 func c09TagRange(c *Ctx, gen, filter string) {
-	obs := guarded(5*time.Second, func() string {
+	obs := c09Guarded(5*time.Second, func() string {
 		if driver.VerifC09ParseTagFilterRange(filter) == nil {
 			return "nil"
 		}
 		return "fn"
 	})
-	c.Case(gen, L(S("tagrange"), S(filter)), obs, regexp.MustCompile("[0-9]").MatchString(filter), "op:tagrange")
+	c09Emit(c, gen, L(S("tagrange"), S(filter)), obs, regexp.MustCompile("[0-9]").MatchString(filter), "op:tagrange")
 }
 
 func c09Locate(c *Ctx, gen string, ms []*profile.Mapping) {
@@ -569,7 +600,7 @@ func c09Locate(c *Ctx, gen string, ms []*profile.Mapping) {
 	obj := &c09Obj{}
 	ui := &c09UI{}
 	var counts []Term
-	obs := guarded(5*time.Second, func() string {
+	obs := c09Guarded(5*time.Second, func() string {
 		for _, m := range p.Mapping {
 			q := &profile.Profile{Mapping: []*profile.Mapping{m}}
 			n0 := len(obj.opened)
@@ -582,24 +613,32 @@ func c09Locate(c *Ctx, gen string, ms []*profile.Mapping) {
 		obs = L(S("ok"), L(counts...))
 	}
 	npaths := len(filepath.SplitList(os.Getenv("PPROF_BINARY_PATH")))
-	c.Case(gen, L(S("locate"), ZI(npaths), L(in...)), obs, len(ms) > 0, "op:locate")
+	c09Emit(c, gen, L(S("locate"), ZI(npaths), L(in...)), obs, len(ms) > 0, "op:locate")
 }
 
 func c09Set(c *Ctx, gen, name, value string) {
-	driver.VerifC09Reset()
+	if !c09Reset() {
+		return
+	}
+	in := L(S("set"), S(name), S(value), c09PFTable([]string{value}))
+	c09Announce(gen, in)
 	var res string
-	obs := guarded(5*time.Second, func() string {
-		res = errClass(driver.VerifC09Configure(name, value))
+	var dump Term
+	obs := c09Guarded(5*time.Second, func() string {
+		res = c09ErrClass(driver.VerifC09Configure(name, value))
+		dump = c09Dump(driver.VerifC09Current()) // also a liveness probe: blocks if configure leaked its lock
 		return res
 	})
 	if _, isS := obs.(tS); isS {
-		obs = L(S(res), c09Dump(driver.VerifC09Current()))
+		obs = L(S(res), dump)
 	}
-	c.Case(gen, L(S("set"), S(name), S(value), pfTable([]string{value})), obs, value != "", "op:set")
+	c09Emit(c, gen, in, obs, value != "", "op:set")
 }
 
 func c09URL(c *Ctx, gen, rawq string) {
-	driver.VerifC09Reset()
+	if !c09Reset() {
+		return
+	}
 	vals, _ := url.ParseQuery(rawq)
 	var keys []string
 	for k := range vals {
@@ -612,11 +651,13 @@ func c09URL(c *Ctx, gen, rawq string) {
 		ps = append(ps, L(S(k), S(vals.Get(k))))
 		vs = append(vs, vals.Get(k))
 	}
+	in := L(S("url"), S(rawq), L(ps...), c09PFTable(vs))
+	c09Announce(gen, in)
 	var res string
 	var dump []driver.VerifC09Field
-	obs := guarded(5*time.Second, func() string {
+	obs := c09Guarded(5*time.Second, func() string {
 		d, err := driver.VerifC09ApplyURL(vals)
-		dump, res = d, errClass(err)
+		dump, res = d, c09ErrClass(err)
 		return res
 	})
 	if _, isS := obs.(tS); isS {
@@ -626,13 +667,15 @@ func c09URL(c *Ctx, gen, rawq string) {
 			obs = L(S(res))
 		}
 	}
-	c.Case(gen, L(S("url"), S(rawq), L(ps...), pfTable(vs)), obs, len(keys) > 0, "op:url")
+	c09Emit(c, gen, in, obs, len(keys) > 0, "op:url")
 }
 
 // c09Session runs the interactive loop over lines (a trivial "top 3" is always appended to see that
 // the session still answers). real=false: report requests are only recorded; real=true: they run.
 func c09Session(c *Ctx, gen string, p *profile.Profile, lines []string, real bool) {
-	driver.VerifC09Reset()
+	if !c09Reset() {
+		return
+	}
 	all := append(append([]string{}, lines...), "top 3")
 	ui := &c09UI{lines: all}
 	obj := &c09Obj{}
@@ -645,7 +688,7 @@ func c09Session(c *Ctx, gen string, p *profile.Profile, lines []string, real boo
 		}
 		ui.inReport = true
 		var err error
-		r := guarded(20*time.Second, func() string { err = next(); return errClass(err) })
+		r := c09Guarded(10*time.Second, func() string { err = next(); return c09ErrClass(err) })
 		ui.inReport = false
 		results = append(results, r)
 		if _, isS := r.(tS); !isS {
@@ -665,8 +708,8 @@ func c09Session(c *Ctx, gen string, p *profile.Profile, lines []string, real boo
 	skipCmp := false
 	for _, l := range all {
 		ls = append(ls, S(l))
-		vals = append(vals, lineValues(l)...)
-		if hasHighByte(l) {
+		vals = append(vals, c09LineValues(l)...)
+		if c09HasHighByte(l) {
 			skipCmp = true
 		}
 	}
@@ -674,10 +717,16 @@ func c09Session(c *Ctx, gen string, p *profile.Profile, lines []string, real boo
 	if real {
 		mode = "real"
 	}
-	in := L(S("session"), S(mode), Ss(c09STypes(q)), S(q.DefaultSampleType), L(ls...), pfTable(vals), c09Lines(q))
+	in := L(S("session"), S(mode), Ss(c09STypes(q)), S(q.DefaultSampleType), L(ls...), c09PFTable(vals), c09Lines(q))
 	c09Announce(gen, in)
-	out := guarded(60*time.Second, func() string { return errClass(driver.VerifC09Interactive(q, o, hook)) })
-	obs := L(out, L(ui.events...), c09Dump(driver.VerifC09Current()), L(results...))
+	// watchdog: a line that never returns (a leaked lock, an endless loop) is the observable "hang"
+	out := c09Guarded(15*time.Second, func() string { return c09ErrClass(driver.VerifC09Interactive(q, o, hook)) })
+	evs := append([]Term{}, ui.events...)
+	final := Term(L())
+	if _, isS := out.(tS); isS {
+		final = c09Current()
+	}
+	obs := L(out, L(evs...), final, L(results...))
 	tags := []string{"op:session-" + mode}
 	if skipCmp {
 		tags = append(tags, "non-ascii-line")
@@ -695,7 +744,9 @@ func c09Web(c *Ctx, gen string, p *profile.Profile, cliArgs []string, reqs []c09
 }
 
 func c09WebD(c *Ctx, gen string, p *profile.Profile, cliArgs []string, reqs []c09Req, deadline time.Duration) {
-	driver.VerifC09Reset()
+	if !c09Reset() {
+		return
+	}
 	ui := &c09UI{}
 	var statuses []Term
 	reqs = append(append([]c09Req{}, reqs...), c09Req{"/top", ""})
@@ -706,7 +757,7 @@ func c09WebD(c *Ctx, gen string, p *profile.Profile, cliArgs []string, reqs []c0
 				statuses = append(statuses, L(S("nohandler")))
 				continue
 			}
-			st := guarded(deadline, func() string {
+			st := c09Guarded(deadline, func() string {
 				req := httptest.NewRequest("GET", "http://localhost"+rq.path, nil)
 				req.URL.RawQuery = rq.rawq
 				w := httptest.NewRecorder()
@@ -735,29 +786,40 @@ func c09WebD(c *Ctx, gen string, p *profile.Profile, cliArgs []string, reqs []c0
 			ps = append(ps, L(S(k), S(vals.Get(k))))
 			vs = append(vs, vals.Get(k))
 		}
-		rs = append(rs, L(S(rq.path), S(rq.rawq), L(ps...), pfTable(vs)))
+		rs = append(rs, L(S(rq.path), S(rq.rawq), L(ps...), c09PFTable(vs)))
 	}
 	in := L(S("web"), Ss(cliArgs), L(rs...), ZI(len(p.SampleType)), c09Lines(p))
 	c09Announce(gen, in)
-	out := guarded(120*time.Second, func() string { return errClass(driver.PProf(o)) })
+	out := c09Guarded(60*time.Second, func() string { return c09ErrClass(driver.PProf(o)) })
 	c09Emit(c, gen, in, L(out, L(statuses...)), len(reqs) > 1, "op:web")
 	c09Cleanup()
 }
 
 func c09CLI(c *Ctx, gen string, p *profile.Profile, args []string, lines []string) {
-	driver.VerifC09Reset()
+	c09CLISym(c, gen, p, args, lines, false)
+}
+
+// c09CLISym: realSym leaves Options.Sym nil, so the driver installs the real symbolizer (with the
+// fake ObjTool and a transport that refuses every request).
+func c09CLISym(c *Ctx, gen string, p *profile.Profile, args []string, lines []string, realSym bool) {
+	if !c09Reset() {
+		return
+	}
 	ui := &c09UI{lines: append(append([]string{}, lines...), "top 3")}
 	fl := newC09Flags(args)
 	o := &plugin.Options{UI: ui, Obj: &c09Obj{}, Sym: c09Sym{}, Writer: &c09Writer{}, Flagset: fl, Fetch: c09Fetch{c09Bytes(p)},
-		HTTPServer: func(*plugin.HTTPServerArgs) error { return nil }}
+		HTTPServer: func(*plugin.HTTPServerArgs) error { return nil }, HTTPTransport: c09NoNet{}}
+	if realSym {
+		o.Sym = nil
+	}
 	in := L(S("cli"), Ss(args), Ss(ui.lines), ZI(len(p.SampleType)), c09Lines(p))
 	c09Announce(gen, in)
-	out := guarded(60*time.Second, func() string {
+	out := c09Guarded(30*time.Second, func() string {
 		err := driver.PProf(o)
 		if err != nil && os.Getenv("C09_DEBUG") != "" {
 			fmt.Fprintln(os.Stderr, args, err)
 		}
-		return errClass(err)
+		return c09ErrClass(err)
 	})
 	c09Emit(c, gen, in, L(out), len(args) > 1, "op:cli")
 	c09Cleanup()
@@ -825,10 +887,22 @@ func c09QueryGen(r *Rng) func() string {
 func runC09(c *Ctx) {
 	c09Env()
 	c.Extra["field_kinds_supported"] = driver.VerifC09FieldKindsSupported()
+	// Every stream runs in a child process of this harness, in parallel, under watchdogs:
+	//  * pprof fetches profiles in goroutines of its own; a panic there kills the process (no
+	//    recover() can catch it) -- the child announces each input first, so the death is reported
+	//    with the input that caused it;
+	//  * a call that never returns (leaked lock, endless loop) is the observable "hang"; the
+	//    goroutine left behind poisons the process, so the child stops after reporting it.
+	c09RunChildren(c, []string{"core", "config", "session-hook", "session-real", "web", "cli", "symbolize"})
+}
+
+// c09Core runs the model-compared streams of the decision cores.
+func c09Core(c *Ctx, stream string) {
 	names, kinds, choices := c09ConfigNames()
 	cmds, _ := driver.VerifC09Commands()
 	r := c.R
-
+	switch stream {
+	case "core":
 	// --- tag ranges: the pool, then grammar-generated strings
 	for _, f := range c09TagRanges {
 		c09TagRange(c, "tagrange-pool", f)
@@ -871,6 +945,7 @@ func runC09(c *Ctx) {
 		c09Locate(c, "locate-random", ms)
 	}
 
+	case "config":
 	// --- configure(name, value): full matrix of names x kind pools (thorough) / sampled (quick)
 	allNames := append(append([]string{}, names...), choices...)
 	allNames = append(allNames, "zz", "", "Focus", "cum ", "top")
@@ -893,6 +968,7 @@ func runC09(c *Ctx) {
 		c09URL(c, "url-pool", q)
 	}
 
+	case "session-hook":
 	// --- interactive sessions, report requests recorded only (model-compared in full)
 	for _, l := range c09Noise {
 		p := GenProfile(r, Knobs{MaxSampleTypes: 2, MinSampleTypes: 1, MaxSamples: 1, MaxLocs: 1, MaxFuncs: 1, MaxDepth: 1})
@@ -912,10 +988,7 @@ func runC09(c *Ctx) {
 		c09Session(c, "session-hook", p, lines, false)
 	}
 
-	// --- exploration: sessions with real reports, web requests, command lines.  Each stream runs in
-	// a child process of this harness: pprof fetches profiles in goroutines of its own, a panic
-	// there kills the process (no recover() can catch it) -- which is an observable here.
-	c09RunChildren(c, []string{"session-real", "web", "cli"})
+	}
 }
 
 
